@@ -159,6 +159,9 @@ func main() {
 				dir = filepath.Join(*verif, "mutants")
 			}
 			extra["thorough"] = runThorough(w, *repo, dir, id, *tier == "thorough")
+			if *tier == "thorough" {
+				extra["seeded_changes"] = runSeeds(*repo, *verif, id)
+			}
 		}
 		total, okN, bad, und, kn, _ := rep.counts()
 		fmt.Printf("== %s: %d obligations: %d discharged, %d violated, %d undecided, %d known (%d rules; %d functions, %d SSA instructions analysed)\n",
